@@ -15,6 +15,8 @@ structure RdSt where
   keepAuthOk : Bool := false            -- may the inherited Authorization be present on the current flow?
   oocFlow : Bool := false               -- the current flow's URI came from a Location outside the modelled class
   lastStatus : Option Nat := none
+  lastVer : Nat := 1                    -- version digit of the last response
+  lastHdrs : List Hdr := []             -- header fields of the last response as reported
   lastLoc : Option Bytes := none        -- last Location value of the last response (none: no such field)
   hadResp : Bool := false
   prevState : String := "gone"
@@ -51,7 +53,7 @@ def walkRedirect (c : TCase) (which : String) : RdSt :=
     | "hdr" => (match t.op, t.res with | [_, k, _], ["unit"] => { s1 with addedNames := k.toLower :: s.addedNames } | _, _ => s1)
     | "resp" =>
       (match t.res with
-       | "resp" :: _ :: st' :: _ :: hs =>
+       | "resp" :: _ :: st' :: ver :: hs =>
          if st' == "none" then s1 else
          -- the Location is read off the bytes the server sent (grammar of C05), not off what the implementation
          -- reports of them; for a head the grammar does not complete (partial-redirect fallback) the report is used
@@ -60,7 +62,7 @@ def walkRedirect (c : TCase) (which : String) : RdSt :=
            | .ok (some (_, r)) => some r.fields
            | _ => none
          let loc := match fromWire with | some fs => lastLocationOf fs | none => lastLocationOf (hdrsOfWords hs)
-         { s1 with lastStatus := st'.toNat?, lastLoc := loc, hadResp := true }
+         { s1 with lastStatus := st'.toNat?, lastVer := ver.toNat?.getD 1, lastHdrs := hdrsOfWords hs, lastLoc := loc, hadResp := true }
        | _ => s1)
     | "status" =>
       (match t.res, s.lastStatus with
@@ -72,6 +74,16 @@ def walkRedirect (c : TCase) (which : String) : RdSt :=
          if (s.prevState == "recvResponse" || s.prevState == "recvBody") && (nxt == "redirect" || nxt == "cleanup") then
            let want := if 300 ≤ st ∧ st ≤ 399 ∧ st ≠ 304 then "redirect" else "cleanup"
            if nxt == want then s1 else { s with fail := some s!"status {st}: expected the {want} state, got {nxt}" }
+         else if s.prevState == "recvResponse" && nxt == "recvBody" && (which == "C15" || which == "all") && decide (300 ≤ st ∧ st ≤ 399 ∧ st ≠ 304) then
+           -- no body is due (C06: HEAD, CONNECT 2xx, a declared length of 0, no framing on a 3xx): the redirect state
+           -- follows the head at once; a body state here is one that can never be left
+           (match parseMethod s.curMethod with
+            | some m =>
+              (match rfcFraming (s.lastVer == 0) m st (framingOf s.lastHdrs) with
+               | .ok rd => if successorSpec rd st == "redirect" then
+                   { s with fail := some s!"status {st} answering {s.curMethod} has no body: the redirect state must be entered right after the head, the flow went to {nxt}" } else s1
+               | .error _ => s1)
+            | none => s1)
          else s1
        | _, _ => s1)
     | "follow" =>
